@@ -455,6 +455,23 @@ class Unit:
         keep = [a for a in range(t.ndim) if a not in axes]
         tf, shape = t.fn, t.shape
 
+        if all(not is_sym(shape[a]) for a in axes) and np.prod([shape[a] for a in axes]) <= 16:
+            import itertools as _it
+
+            def fn_small(*kidx):
+                terms = []
+                for combo in _it.product(*[range(shape[a]) for a in axes]):
+                    idx = [None] * t.ndim
+                    for a, v in zip(keep, kidx):
+                        idx[a] = v
+                    for a, v in zip(axes, combo):
+                        idx[a] = v
+                    terms.append(interp.truth(tf(*idx)))
+                return z_or(*terms)
+            if not keep:
+                return fn_small()
+            return STensor(tuple(shape[a] for a in keep), fn_small, 'bool')
+
         def fn(*kidx):
             rs = [z3.Int(ctx.name('e')) for _ in axes]
             idx = [None] * t.ndim
